@@ -24,13 +24,13 @@ func init() {
 			if tier == "thorough" {
 				return 1000
 			}
-			return 64
+			return 80
 		},
 		EvalCounter: "drops",
 		CaseTimeout: 150 * time.Second,
 		Run:         runC15,
 		Floors: func(tier string) map[string]int {
-			return map[string]int{"drops": 100, "recreates": 100, "drop_seen_by_connected": 20, "drop_seen_by_stalled": 8, "drop_seen_by_restarted": 8, "drop_seen_by_fresh": 8,
+			return map[string]int{"drops": 100, "recreates": 100, "drop_seen_by_connected": 20, "drop_seen_by_stalled": 8, "drop_seen_by_restarted": 8, "drop_seen_by_fresh": 8, "primary_restarts_after_drop": 8,
 				"recreate_replicated": 50, "page_size_changed_on_recreate": 10, "drop_with_pending_wal": 5, "tombstones_decoded": 100}
 		},
 	})
@@ -73,7 +73,7 @@ func dropGone(c *core.Case, n *cluster.CNode, name, ctx string, detail any) bool
 }
 
 func runC15(c *core.Case) {
-	situation := []string{"connected", "stalled", "restarted", "fresh"}[c.Index%4]
+	situation := []string{"connected", "stalled", "restarted", "fresh", "primary-restarted"}[c.Index%5]
 	cl, err := cluster.New(c.Dir, []cluster.NodeOpts{{Candidate: true}, {}, {}})
 	if err != nil {
 		c.Inconclusive(err.Error())
@@ -228,6 +228,31 @@ func runC15(c *core.Case) {
 				return
 			}
 		case "fresh":
+			if cycle == 0 {
+				if err := cl.Start(2); err != nil {
+					c.Violate("C15/replica-start-failed", err.Error(), detail)
+					return
+				}
+			}
+		case "primary-restarted":
+			// the primary restarts with nothing but the tombstone left of the
+			// database; then a replica that has never seen the database joins
+			cl.Stop(0)
+			if err := cl.Start(0); err != nil || cl.WaitPrimary(0, 10*time.Second) == nil {
+				healthViolations(c, P.Node, "primary restart after drop", detail)
+				if !c.Violated() {
+					c.Violate("C15/primary-restart-failed", fmt.Sprintf("the primary did not come back after the drop: %v", err), detail)
+				}
+				return
+			}
+			if p2 := mon.PosOf(P.Node, "db"); p2 != pos {
+				c.Violate("C15/drop-lost-on-restart", fmt.Sprintf("after a restart the primary is at %s, the drop was %s", p2, pos), detail)
+				return
+			}
+			if !dropGone(c, P, "db", "primary after restart", detail) {
+				return
+			}
+			c.Count("primary_restarts_after_drop", 1)
 			if cycle == 0 {
 				if err := cl.Start(2); err != nil {
 					c.Violate("C15/replica-start-failed", err.Error(), detail)
